@@ -63,7 +63,7 @@ pub fn generate(case_seed: u64, idx: u64, tier: Tier) -> Case {
         // quarantine is a recall state (still readable when asked for by state), not a read
         // restriction, so it is not a way to make an element unreadable; classification is
         quarantine_instead: false,
-        kind: rng.below(6) as u8,
+        kind: rng.below(10) as u8,
         requests_before: rng.below(3) as u8,
         schedule: Schedule::Seeded {
             seed: rng.next_u64(),
@@ -387,7 +387,13 @@ fn run_next_request(case: &Case, rep: &mut RunReport) -> Result<(), Violation> {
     let until = if case.kind == 2 { chrono::DateTime::from_timestamp_millis(expiry_ms).unwrap().to_rfc3339_opts(chrono::SecondsFormat::Millis, true) } else { String::new() };
     let grant_id = read_grant(&nexus, READER, "", &until, true)?;
     let mut asker = READER;
-    if case.kind == 4 {
+    if case.kind == 6 || case.kind == 7 {
+        // the delegator holds its authority as a co-owner of the space
+        let mut space = block(nexus.store.get_space(DEFAULT_SPACE)).map_err(|e| violation!("c19.setup", "get_space failed: {e:?}"))?;
+        space.owners.push(READER.to_string());
+        block(nexus.store.put_space(&space)).map_err(|e| violation!("c19.setup", "put_space failed: {e:?}"))?;
+    }
+    if case.kind == 4 || case.kind >= 6 {
         block(nexus.governance().create_delegation(
             DelegationDraft { space_id: DEFAULT_SPACE.into(), delegator_principal: READER.into(), delegate_principal: DELEGATE.into(), actions: vec!["read".into()], ..Default::default() },
             READER,
@@ -403,7 +409,7 @@ fn run_next_request(case: &Case, rep: &mut RunReport) -> Result<(), Violation> {
     let s0 = mk_session(asker);
     let before = block(exec(&s0, query, false));
     if !before.ok() {
-        if case.kind == 4 {
+        if case.kind == 4 || case.kind >= 6 {
             // delegation plumbing differs; skip this kind rather than guess
             rep.evaluations = 1;
             rep.probe("delegation_setup_not_authorizing", 1);
@@ -446,8 +452,9 @@ fn run_next_request(case: &Case, rep: &mut RunReport) -> Result<(), Violation> {
             let gov = nexus2.governance();
             let r: Result<(), String> = match kind {
                 0 | 4 => gov.revoke_grant(grant_id, SYSTEM_PRINCIPAL).await.map_err(|e| format!("{e:?}")),
-                1 => gov.set_principal_status(READER, status::SUSPENDED, SYSTEM_PRINCIPAL).await.map(|_| ()).map_err(|e| format!("{e:?}")),
-                5 => gov.set_principal_status(READER, status::REVOKED, SYSTEM_PRINCIPAL).await.map(|_| ()).map_err(|e| format!("{e:?}")),
+                // 6/8: the DELEGATOR (co-owner / grant holder) is suspended; 7/9: revoked - the delegate asks
+                1 | 6 | 8 => gov.set_principal_status(READER, status::SUSPENDED, SYSTEM_PRINCIPAL).await.map(|_| ()).map_err(|e| format!("{e:?}")),
+                5 | 7 | 9 => gov.set_principal_status(READER, status::REVOKED, SYSTEM_PRINCIPAL).await.map(|_| ()).map_err(|e| format!("{e:?}")),
                 2 => {
                     // expiry: a forward clock jump across valid_until
                     sim2.clock().set_ms(expiry_ms + 5);
@@ -493,7 +500,18 @@ fn run_next_request(case: &Case, rep: &mut RunReport) -> Result<(), Violation> {
     let Some(t_done) = *done_at.lock().unwrap() else {
         return Err(violation!("c19.setup", "the control-plane change failed"));
     };
-    let what = ["grant revocation", "principal suspension", "grant expiry (clock crossed valid_until)", "explicit deny policy", "revocation of the delegator's grant", "principal revocation"][case.kind as usize % 6];
+    let what = [
+        "grant revocation",
+        "principal suspension",
+        "grant expiry (clock crossed valid_until)",
+        "explicit deny policy",
+        "revocation of the delegator's grant",
+        "principal revocation",
+        "suspension of the delegator (a co-owner of the space)",
+        "revocation of the delegator (a co-owner of the space)",
+        "suspension of the delegator (a grant holder)",
+        "revocation of the delegator (a grant holder)",
+    ][case.kind as usize % 10];
     for (inv, ret, ok, err) in log.lock().unwrap().iter() {
         if *inv > t_done {
             rep.probe("requests_after_change", 1);
